@@ -19,7 +19,7 @@ FeedIds == {"f1", "f2"}
 Colls   == {"c0", "c1"}
 Modes   == {"CreateOrOpen", "CreateNew", "ReOpenExisting"}
 
-NoStore == [exists |-> FALSE, docs |-> [c \in Colls |-> {}], dd |-> FALSE]
+NoStore == [exists |-> FALSE, docs |-> [c \in Colls |-> {}], dd |-> FALSE, c1 |-> FALSE]
 NoHandle == [st |-> "free", n |-> "-", u |-> "-", stale |-> FALSE]
 NoFeed == [st |-> "none", n |-> "-", u |-> "-", colls |-> {}, kind |-> "-", done |-> FALSE]
 
@@ -74,7 +74,7 @@ Apply(S, a) ==
            IF ExpectOpen(S, a.n, a.u, a.mode) # "ok" THEN S
            ELSE [S EXCEPT !.reg[a.n] = [url |-> a.u, cnt |-> S.reg[a.n].cnt + 1],
                           !.store[a.n][a.u] = IF S.store[a.n][a.u].exists THEN S.store[a.n][a.u]
-                                               ELSE [exists |-> TRUE, docs |-> [c \in Colls |-> {}], dd |-> FALSE],
+                                               ELSE [exists |-> TRUE, docs |-> [c \in Colls |-> {}], dd |-> FALSE, c1 |-> FALSE],
                           !.hs[a.h] = [st |-> "open", n |-> a.n, u |-> a.u, stale |-> FALSE]]
       [] a.kind = "Close" ->
            IF hd.st # "open" THEN S      \* closing a closed (or dead) handle again changes nothing
@@ -93,11 +93,13 @@ Apply(S, a) ==
                           !.fd = EndFeedsOf(S, hd.n)]
       [] a.kind = "Write" ->
            IF hd.st # "open" \/ (hd.stale /\ a.c = "c1" /\ ~a.force) THEN S
-           ELSE [S EXCEPT !.store[hd.n][hd.u].docs[a.c] = @ \cup {a.id}, !.wid = S.wid + 1]
+           ELSE [S EXCEPT !.store[hd.n][hd.u].docs[a.c] = @ \cup {a.id}, !.wid = S.wid + 1,
+                          !.store[hd.n][hd.u].c1 = (@ \/ a.c = "c1")]      \* the collection is created on first use
       [] a.kind = "Drop" ->       \* DropDataStore(c1): its documents and feeds go; other handles' cached collection is stale
            IF hd.st # "open" THEN S
            ELSE [S EXCEPT !.store[hd.n][hd.u].docs["c1"] = {},
                           !.store[hd.n][hd.u].dd = FALSE,      \* the collection's design documents go with it
+                          !.store[hd.n][hd.u].c1 = FALSE,
                           !.hs = [h \in Handles |-> IF h # a.h /\ S.hs[h].n = hd.n /\ S.hs[h].st = "open"
                                                     THEN [S.hs[h] EXCEPT !.stale = TRUE] ELSE S.hs[h]],
                           !.fd = [f \in FeedIds |->
@@ -107,13 +109,15 @@ Apply(S, a) ==
                                     ELSE S.fd[f]]]
       [] a.kind = "StartFeed" ->
            IF hd.st # "open" THEN S
-           ELSE [S EXCEPT !.fd[a.f] =
+           ELSE [S EXCEPT !.store[hd.n][hd.u].c1 = (@ \/ a.fk = "multi" \/ (a.fk # "bucket" /\ a.c = "c1")),
+                          !.fd[a.f] =
                     IF a.fk \in {"dump", "dumpnb"} THEN [st |-> "ended", n |-> hd.n, u |-> hd.u, colls |-> {a.c}, kind |-> a.fk, done |-> TRUE]
                     ELSE [st |-> "running", n |-> hd.n, u |-> hd.u,
                           colls |-> IF a.fk = "multi" THEN Colls ELSE IF a.fk = "bucket" THEN {"c0"} ELSE {a.c},
                           kind |-> a.fk, done |-> FALSE]]
       [] a.kind = "PutDDoc" ->     \* a design document on collection c1
-           IF hd.st # "open" \/ (hd.stale /\ ~a.force) THEN S ELSE [S EXCEPT !.store[hd.n][hd.u].dd = TRUE]
+           IF hd.st # "open" \/ (hd.stale /\ ~a.force) THEN S
+           ELSE [S EXCEPT !.store[hd.n][hd.u].dd = TRUE, !.store[hd.n][hd.u].c1 = TRUE]
       [] a.kind = "StopFeed" ->
            IF S.fd[a.f].st = "running" THEN [S EXCEPT !.fd[a.f].st = "ended", !.fd[a.f].done = TRUE] ELSE S
       [] OTHER -> S
